@@ -246,3 +246,77 @@ func staticOrigins(c *Ctx, root *ssa.Function, v ssa.Value, accept func(ssa.Valu
 	}
 	return walk(v, 0)
 }
+
+// loopExhausted reports what the path decided, the last time it evaluated the
+// loop's own continuation test at header hdr: 1 = the test failed (the loop
+// ran to its end), 0 = the test succeeded (the path left the loop from inside
+// an iteration - break, return), -1 = never evaluated (loop not entered).
+// Works for range loops over slices/arrays/ints, counted loops and range
+// loops over maps/strings (the `ok` of the iterator).
+func loopExhausted(ex *Explorer, st *State, hdr *ssa.BasicBlock) int {
+	if hdr == nil || len(hdr.Instrs) == 0 {
+		return -1
+	}
+	iff, ok := hdr.Instrs[len(hdr.Instrs)-1].(*ssa.If)
+	if !ok || len(hdr.Succs) != 2 {
+		return -1
+	}
+	info := InfoOf(hdr.Parent())
+	body := info.LoopOf[hdr.Index]
+	if body == nil {
+		return -1
+	}
+	stays0 := body[hdr.Succs[0].Index]
+	stays1 := body[hdr.Succs[1].Index]
+	if stays0 == stays1 {
+		return -1
+	}
+	a := ex.AtomOf(st, iff.Cond)
+	if a.Const != nil {
+		return -1
+	}
+	f, ok := st.hist[a.key()]
+	if !ok {
+		return -1
+	}
+	// truth of the condition itself on the path
+	val := f.Val
+	switch f.Kind {
+	case "eq":
+		switch {
+		case f.Eq != "":
+			val = f.Eq == a.C
+		default:
+			val = true
+			for _, ne := range f.Ne {
+				if ne == a.C {
+					val = false
+				}
+			}
+			if val {
+				return -1 // only exclusions of other constants are known
+			}
+		}
+	}
+	if a.Neg {
+		val = !val
+	}
+	continues := val == stays0 // condition true -> Succs[0]
+	if continues {
+		return 0
+	}
+	return 1
+}
+
+// loopsWith: the headers of the loops (of the instruction's own function) that contain in.
+func loopsWith(in ssa.Instruction) []*ssa.BasicBlock {
+	var out []*ssa.BasicBlock
+	fn := in.Parent()
+	for h, body := range InfoOf(fn).LoopOf {
+		if body[in.Block().Index] {
+			out = append(out, fn.Blocks[h])
+		}
+	}
+	sort.Slice(out, func(i, j int) bool { return out[i].Index < out[j].Index })
+	return out
+}
